@@ -839,6 +839,9 @@ def _process_match(
         delta = m.end() - m.start()
 
     substring = ''.join(parts)
+    # whatever the segments accounted for, the net length change of the
+    # match is its original width minus the length of its replacement
+    delta = (m.end() - m.start()) - len(substring)
     if not blocked:
         blocked = _check_mask(substring, m, smap, emap, mask, prev_mask)
 
